@@ -111,7 +111,7 @@ def core3Sample : Core3.Func :=
    -- `… @f(…) unnamed_addr nounwind cold section "a\22b" align 8 gc "g" {`
    { unnamed := some 0, attrs := [30, 3], sect := [97, 34, 98], align := 8, gc := [103] },
    -- `(i32 noundef signext %x, i32 %0)`
-   [[7, 11], []]⟩
+   [[7, 11], []], false⟩
 
 example : Core3.wf core3Sample = true := by decide +kernel
 example : Core3.mdWF IntLit.hexChoice core3Sample = true := by decide +kernel
